@@ -37,7 +37,7 @@ def unit_cases(rng, k0, n):
 
 def run(tier, seed, replay):
     chk = common.Check("C02", tier, seed)
-    st = common.check_proofs(chk, "C02", extra_dirs=("Fmt", "Gen", "C05"))
+    st = common.check_proofs(chk, "C02", extra_dirs=("Fmt", "Gen", "C05", "C07"))
     n = 2500 if tier == "quick" else 15000
     C.decision_tie(chk, n, n // 2)
 
@@ -84,8 +84,11 @@ def run(tier, seed, replay):
     common.cleanup_scratch("c02_rt")
     return C.finish_with_proofs(
         chk, st,
-        rule="(1) generated Display-like/Debug items: model vs real expander (the attribute is handed to write! verbatim, which fields "
-             "are re-bound, body shapes, diagnostics); (2) well-typed structs and enum variants (1-3 fields of i32/u8/f64/&str/&i32/bool; "
+        rule="(1) generated Display-like/Debug items, the WHOLE derive input going through the model's front end (attributes selected by "
+             "name, several attributes per item in any order incl. attributes of other derives, duplicates, legacy `fmt =`/`bound =` "
+             "spellings, rename_all on enums and variants, unions): model vs real expander (the attribute is handed to write! verbatim, "
+             "which fields are re-bound, how the fields are bound - `let x = &self.x` / match patterns -, body shapes, unit names with "
+             "the casing applied by an independent implementation, diagnostics); (2) well-typed structs and enum variants (1-3 fields of i32/u8/f64/&str/&i32/bool; "
              "literals with named, positional, aliased and expression arguments, escapes, every trait letter, Pointer, modifiers; "
              "unit types with rename_all) compiled with the real macro: flag-free output vs format!(literal, args) with every field bound "
              "under its name in the same process; non-trivial = has a format attribute or rename_all or a field; distinct by source",
@@ -99,7 +102,12 @@ META = {
             "in a Pointer placeholder (and not aliased) are re-bound to the field itself, so a field named in the literal prints as "
             "the field itself under every trait while a field name inside an argument expression is a reference; std and derive_more "
             "agree on which fields the literal names (via C03); without attribute a single field delegates under the derived trait and a "
-            "unit prints its name. Model tied to the expander each run; real expansions are compared byte-for-byte with format! at run time.",
+            "unit prints its name. Also proved: under every combination of own and enum-level attribute the own attribute reaches write! / "
+            "format_args! / Trait::fmt unchanged; every field is bound under its name, in order, as a reference (struct lets and match "
+            "patterns); a delegation passes the field itself only where that is indistinguishable from the documented binding; unit "
+            "names use the variant's rename_all, else the enum's (casing uninterpreted); attributes of other derives are never read; "
+            "merging several attributes keeps one format, one rename_all and all bound(...) predicates; Debug's builder chain. "
+            "Model tied to the expander each run; real expansions are compared byte-for-byte with format! at run time.",
     "note": "Trusted: Coq kernel; Fmt/Model.v tied by differential runs; core's forwarding impls (&T formats like T except Pointer) and "
             "format_args! semantics (exercised at run time); convert_case (compared with an independent casing implementation).",
     "design_ref": "DESIGN.md section 2 / C02",
